@@ -39,7 +39,7 @@ ASSUMPTIONS = [
 ]
 SHARD_TIMEOUT = {"quick": 900, "thorough": 3000}
 
-EXT_POOL = trees.EXTERNALS + ["projx.y", "proj_other.z", "projection", "handlers", "myhandlers.sub", "h", "a.handlers", "xproj.h"]
+EXT_POOL = trees.EXTERNALS + ["dup.dup", "twice.twice.x", "projx.y", "proj_other.z", "projection", "handlers", "myhandlers.sub", "h", "a.handlers", "xproj.h"]
 
 
 def plan(tier, seed):
@@ -168,6 +168,10 @@ def one_tree(tspec, acc, rnd, sample=False, forced=None):
                 pats = gen_ext_patterns(rnd, externals_seen, internal_names)
                 if use_regex:
                     pats = [rglob.to_regex(p) for p in pats]
+                    if rnd.random() < 0.35:
+                        # hand-written regexes: a back-reference to the pattern's own first group / an inline flag
+                        pats = rnd.choice([[r"(json|sys)$", r"(\w+)\.\1(\..*)?$"], [r"(?i)OS(\..*)?$", r"Json$"], [r"(xml)\.etree", r"(\w+)\.\1$", r"(logging)\.handlers$"]])
+                        acc.count("external_regexes_with_flags_or_backreferences")
             kw = {"exclude_external_libraries": False}
             kw["regex_external_exclusions" if use_regex else "external_exclusions"] = tuple(pats)
             se, case = scan("include+regex" if use_regex else "include+glob", **kw)
